@@ -807,6 +807,9 @@ func (se *SpecEnv) callSpec(c *ast.CallExpr) Value {
 		return av.Arr
 	case "at":
 		return F.Select(targ(0), targ(1))
+	case "bxor8":
+		// the bitwise exclusive or of two bytes (the term the code's own b0[j] ^ b1[j] on uint8 produces)
+		return F.bitop(OBxor, 8, targ(0), targ(1))
 	case "zeroof":
 		// the zero value of the sort of the argument (the value a freshly made slice holds everywhere)
 		t := targ(0)
